@@ -11,3 +11,11 @@ def contract(target, props=(), also=()):
             REGISTRY[t] = cls
         return cls
     return deco
+
+
+def lemma(props=(), types=None, pins=None):
+    """a lemma over contracts: a sidecar function whose asserts are proof obligations"""
+    def deco(fn):
+        fn.__lemma_props__ = tuple(props)
+        return fn
+    return deco
